@@ -119,6 +119,11 @@ func detectContentType(r io.Reader) (string, io.Reader, error) {
 	}
 
 	ct := http.DetectContentType(buf[:n])
+	// A zip archive without members is just the end-of-central-directory
+	// record, which DetectContentType does not know.
+	if bytes.HasPrefix(buf[:n], []byte("PK\x05\x06")) {
+		ct = "application/zip"
+	}
 
 	// If we are a seeker, we can just undo our read
 	if s, ok := r.(io.Seeker); ok {
